@@ -16,6 +16,11 @@
 //!   <letters>) and `[v|v|…]` (array literal); no-loop flag `1v` / `0v`: the rule's alpha nodes are built with
 //!   `AlphaNode::with_typed_value`.  New results: `t0` (template Err), `s<k>` (strategy read back), `d<1|0><handles>` (deffacts
 //!   loaded: Ok / Err and the new handles); every token ends in `/<rules>.<total>.<active>.<retracted>.<types>.<deps>` = stats().
+//!   ARITHMETIC (reach audit 2): node `X.<expr>.<cmp>.<atom>` = the GRL condition `<expr> <cmp> <atom>` (an arithmetic left-hand side:
+//!   `Condition::with_test`, alpha node `test(<text>) == true`); action item `<field>@<expr>` = `T.f<field> = <expr>;` (after the
+//!   literal items).  atom := `n<twice>` (the number twice/2, written `n` or `n.5`) | `f<ty>_<field>` | `w<letters a..c>` (quoted);
+//!   expr := atom (<p|m|t|d|r> atom)* for + - * / %.  A value `s<900+i>` = the text of the i-th distinct expression of the case
+//!   (what `evaluate_expression_for_rete` stores when the evaluation fails).  `DX …` = a value outside the modelled domain showed up.
 //! obs   := `D<0|1> tok tok …`; tok := `<res>/<get>/<T0>/<T1>/<T2>/<all_facts>/<all_handles>/<contents>`
 //!   res  := `i<h>` | `u<0|1>` | `x<0|1>` | `z` | `F<fired names>~<rule>@<handle>@<f=v,…>~…`
 //!   D1 = at every moment at most one live fact per type (then nothing depends on HashMap iteration order).
@@ -53,15 +58,95 @@ fn parse_val(s: &str) -> Option<FactValue> {
         _ => None,
     }
 }
+/// texts of the distinct expressions of the case that is running (a failed evaluation stores the text), and whether a value
+/// outside the modelled domain was seen
+static EXPR_TEXTS: Mutex<Vec<String>> = Mutex::new(Vec::new());
+static OUT_OF_DOMAIN: std::sync::atomic::AtomicBool = std::sync::atomic::AtomicBool::new(false);
+fn out_of_domain() -> String { OUT_OF_DOMAIN.store(true, std::sync::atomic::Ordering::SeqCst); "?".into() }
 fn show_val(v: &FactValue) -> String {
     match v {
         FactValue::Integer(i) => format!("i{}", i),
         FactValue::Boolean(b) => format!("b{}", if *b { 1 } else { 0 }),
-        FactValue::String(s) if s.starts_with('s') => s.clone(),
-        FactValue::String(s) => format!("w{}", s),
+        FactValue::String(s) if s.len() > 1 && s.starts_with('s') && s[1..].bytes().all(|c| c.is_ascii_digit()) => s.clone(),
+        FactValue::String(s) if !s.is_empty() && s.bytes().all(|c| (b'a'..=b'c').contains(&c)) => format!("w{}", s),
+        FactValue::String(s) => match EXPR_TEXTS.lock().unwrap().iter().position(|t| t == s) {
+            // the text of a bare field reference `T<t>.f<k>` is the string a dangling variable reference degrades to: s<1000+100t+k>
+            Some(i) => match s.strip_prefix('T').and_then(|r| r.split_once(".f")).and_then(|(t, k)| Some((t.parse::<u64>().ok()?, k.parse::<u64>().ok()?))) {
+                Some((t, k)) => format!("s{}", 1000 + 100 * t + k),
+                None => format!("s{}", 900 + i),
+            },
+            // anything else (a concatenation with an `s<k>` string or with a stored expression text, …) is outside the domain
+            None => out_of_domain(),
+        },
         FactValue::Float(f) if (f * 2.0).fract() == 0.0 && f.abs() < 1e15 => format!("h{}", (f * 2.0) as i64),
         FactValue::Null => "n".into(),
-        _ => "?".into(),
+        _ => out_of_domain(),
+    }
+}
+
+// ------------------------------------------------------------------------------------------------ arithmetic
+/// one atom of the expression grammar: (GRL text, rest of the input)
+fn atom_text(s: &str) -> Option<(String, &str)> {
+    let digits = |t: &str| t.bytes().take_while(|c| c.is_ascii_digit()).count();
+    match s.as_bytes().first()? {
+        b'n' => { let n = digits(&s[1..]); let t: u64 = s[1..1 + n].parse().ok()?;
+                  Some((if t % 2 == 0 { format!("{}", t / 2) } else { format!("{}.5", t / 2) }, &s[1 + n..])) }
+        b'f' => { let n = digits(&s[1..]); let r = s[1 + n..].strip_prefix('_')?; let m = digits(r);
+                  if n == 0 || m == 0 { return None; }
+                  Some((format!("T{}.f{}", &s[1..1 + n], &r[..m]), &r[m..])) }
+        b'w' => { let n = s[1..].bytes().take_while(|c| (b'a'..=b'c').contains(c)).count(); if n == 0 { return None; }
+                  Some((format!("\"{}\"", &s[1..1 + n]), &s[1 + n..])) }
+        _ => None,
+    }
+}
+/// `<atom> (<op> <atom>)*` as GRL text: operands and operators separated by single blanks
+fn expr_text(s: &str) -> Option<String> {
+    let (mut out, mut rest) = atom_text(s)?;
+    while !rest.is_empty() {
+        let op = match rest.as_bytes()[0] { b'p' => "+", b'm' => "-", b't' => "*", b'd' => "/", b'r' => "%", _ => return None };
+        let (a, r) = atom_text(&rest[1..])?;
+        out.push_str(&format!(" {} {}", op, a));
+        rest = r;
+    }
+    Some(out)
+}
+fn atom_only(s: &str) -> Option<String> { let (t, r) = atom_text(s)?; if r.is_empty() { Some(t) } else { None } }
+/// the field of the alpha node the loader builds for an arithmetic condition (`Condition::with_test`)
+fn test_field(p: &[&str]) -> Option<String> {
+    Some(format!("test({} {} {})", expr_text(p[1])?, op_text(p[2])?, atom_only(p[3])?))
+}
+/// what the GRL closure does for `T.f = <expr>;` (`execute_action` → `evaluate_expression_for_rete` → `value_to_fact_value`), through
+/// the public evaluator `rust_rule_engine::expression::evaluate_expression`
+fn eval_like_loader(expr: &str, facts: &TypedFacts) -> FactValue {
+    use rust_rule_engine::types::Value;
+    fn fv_to_v(v: &FactValue) -> Value {
+        match v {
+            FactValue::String(s) => if let Ok(i) = s.parse::<i64>() { Value::Integer(i) } else if let Ok(f) = s.parse::<f64>() { Value::Number(f) }
+                else if s == "true" { Value::Boolean(true) } else if s == "false" { Value::Boolean(false) } else { Value::String(s.clone()) },
+            FactValue::Integer(i) => Value::Integer(*i),
+            FactValue::Float(f) => Value::Number(*f),
+            FactValue::Boolean(b) => Value::Boolean(*b),
+            FactValue::Array(a) => Value::Array(a.iter().map(fv_to_v).collect()),
+            FactValue::Null => Value::Null,
+        }
+    }
+    fn v_to_fv(v: &Value) -> FactValue {
+        match v {
+            Value::Number(n) => if n.fract() == 0.0 { FactValue::Integer(*n as i64) } else { FactValue::Float(*n) },
+            Value::Integer(i) => FactValue::Integer(*i),
+            Value::String(s) => FactValue::String(s.clone()),
+            Value::Boolean(b) => FactValue::Boolean(*b),
+            Value::Null => FactValue::Null,
+            Value::Array(a) => FactValue::Array(a.iter().map(v_to_fv).collect()),
+            Value::Object(_) => FactValue::String("object".to_string()),
+            Value::Expression(e) => FactValue::String(format!("[EXPR: {}]", e)),
+        }
+    }
+    let f = rust_rule_engine::engine::facts::Facts::new();
+    for (k, v) in facts.get_all() { f.set(k, fv_to_v(v)); }
+    match rust_rule_engine::expression::evaluate_expression(expr, &f) {
+        Ok(v) => v_to_fv(&v),
+        Err(_) => FactValue::String(expr.to_string()),
     }
 }
 
@@ -102,6 +187,12 @@ fn parse_node(s: &str, typed: bool) -> Option<(ReteUlNode, &str)> {
     }
     let end = s.find([',', ')']).unwrap_or(s.len());
     let p: Vec<&str> = s[..end].split('.').collect();
+    if p.len() == 4 && p[0] == "X" {
+        let field = test_field(&p)?;
+        let node = if typed { AlphaNode::with_typed_value(field, "==".into(), FactValue::Boolean(true)) }
+            else { AlphaNode { field, operator: "==".into(), value: "true".into() } };
+        return Some((ReteUlNode::UlAlpha(node), &s[end..]));
+    }
     if p.len() != 5 || p[0] != "A" {
         return None;
     }
@@ -123,7 +214,7 @@ fn parse_node(s: &str, typed: bool) -> Option<(ReteUlNode, &str)> {
     Some((ReteUlNode::UlAlpha(AlphaNode { field, operator: op.into(), value }), &s[end..]))
 }
 
-struct RuleSpec { ty: u64, prio: i32, no_loop: bool, node: ReteUlNode, sets: Vec<(String, FactValue)>, retract: bool }
+struct RuleSpec { ty: u64, prio: i32, no_loop: bool, node: ReteUlNode, sets: Vec<(String, FactValue)>, xsets: Vec<(String, String)>, retract: bool }
 
 fn parse_rule(s: &str) -> Option<RuleSpec> {
     let p: Vec<&str> = s.splitn(4, ':').collect();
@@ -133,15 +224,22 @@ fn parse_rule(s: &str) -> Option<RuleSpec> {
     if !rest.is_empty() { return None; }
     let ty: u64 = p[0].parse().ok()?;
     let mut sets = Vec::new();
+    let mut xsets = Vec::new();
     let mut retract = false;
     if act_s != "-" {
         for a in act_s.split(';') {
             if a == "R" { retract = true; continue; }
+            if let Some((f, e)) = a.split_once('@') {
+                f.parse::<u64>().ok()?;
+                xsets.push((format!("T{}.f{}", ty, f), expr_text(e)?));
+                continue;
+            }
+            if !xsets.is_empty() { return None; }                  // literal assignments come first
             let (f, v) = a.split_once('=')?;
             sets.push((format!("T{}.f{}", ty, f), parse_val(v)?));
         }
     }
-    Some(RuleSpec { ty, prio: p[1].parse().ok()?, no_loop: p[2].starts_with('1'), node, sets, retract })
+    Some(RuleSpec { ty, prio: p[1].parse().ok()?, no_loop: p[2].starts_with('1'), node, sets, xsets, retract })
 }
 
 fn parse_data(s: &str) -> Option<TypedFacts> {
@@ -219,6 +317,9 @@ fn grl_node(s: &str) -> Option<(String, &str)> {
     }
     let end = s.find([',', ')']).unwrap_or(s.len());
     let p: Vec<&str> = s[..end].split('.').collect();
+    if p.len() == 4 && p[0] == "X" {
+        return Some((format!("{} {} {}", expr_text(p[1])?, op_text(p[2])?, atom_only(p[3])?), &s[end..]));
+    }
     if p.len() != 5 || p[0] != "A" { return None; }
     let op = op_text(p[3])?;
     let rhs = if let Some(v) = p[4].strip_prefix('v') { let (t, f) = v.split_once('_')?; format!("T{}.f{}", t, f) }
@@ -240,6 +341,7 @@ fn grl_rule(i: usize, s: &str) -> Option<String> {
     if act_s != "-" {
         for a in act_s.split(';') {
             if a == "R" { acts.push(format!("retract(T{});", p[0])); continue; }
+            if let Some((f, e)) = a.split_once('@') { acts.push(format!("T{}.f{} = {};", p[0], f, expr_text(e)?)); continue; }
             let (f, v) = a.split_once('=')?;
             acts.push(format!("T{}.f{} = {};", p[0], f, grl_val(v)?));
         }
@@ -350,9 +452,15 @@ fn exec(case: &str) -> String {
     let Some(rules) = t[0].split('/').map(parse_rule).collect::<Option<Vec<_>>>() else { return "bad-case".into() };
     let Some(grl) = t[0].split('/').enumerate().map(|(i, r)| grl_rule(i, r)).collect::<Option<Vec<_>>>() else { return "bad-case".into() };
     let log: Arc<Mutex<Vec<String>>> = Arc::new(Mutex::new(Vec::new()));
+    {
+        let mut tab = EXPR_TEXTS.lock().unwrap();
+        tab.clear();
+        for r in &rules { for (_, t) in &r.xsets { if !tab.contains(t) { tab.push(t.clone()); } } }
+        OUT_OF_DOMAIN.store(false, std::sync::atomic::Ordering::SeqCst);
+    }
     let mut e = new_engine();
     for (i, r) in rules.into_iter().enumerate() {
-        let (lg, ty, sets, retract) = (log.clone(), r.ty, r.sets, r.retract);
+        let (lg, ty, sets, xsets, retract) = (log.clone(), r.ty, r.sets, r.xsets, r.retract);
         let tname = format!("T{}", ty);
         e.add_rule(
             TypedReteUlRule {
@@ -372,6 +480,8 @@ fn exec(case: &str) -> String {
                     lg.lock().unwrap().push(rec);
                     // what the GRL-generated closure does for `T.f = literal;` and `retract(T);`
                     for (k, v) in &sets { facts.set(k.clone(), v.clone()); }
+                    // … and for `T.f = <expr>;`: evaluated on the copy as the earlier assignments left it
+                    for (k, x) in &xsets { let v = eval_like_loader(x, facts); facts.set(k.clone(), v); }
                     if retract {
                         match facts.get_fact_handle(&tname) {
                             Some(h) => results.add(ActionResult::Retract(h)),
@@ -408,6 +518,7 @@ fn exec(case: &str) -> String {
             if toks2 == stripped { "G=".to_string() } else { format!("G {}", if toks2.is_empty() { "-".to_string() } else { toks2.join(" ") }) }
         }
     };
+    if OUT_OF_DOMAIN.load(std::sync::atomic::Ordering::SeqCst) { return format!("DX {}", if toks.is_empty() { "-".to_string() } else { toks.join(" ") }); }
     format!("D{} {} {}", if d1 { 1 } else { 0 }, if toks.is_empty() { "-".to_string() } else { toks.join(" ") }, g)
 }
 
@@ -1001,8 +1112,179 @@ fn gen_strategy_case(rng: &mut Rng) -> String {
     format!("{} {}", rules.join("/"), ops.join(" "))
 }
 
+/// family "one fact of several touched after a reset" (seeded change C06-13: an `update` that re-propagates only the updated fact).
+/// insert / update / retract re-evaluate EVERY live fact of the touched type.  Quiet no-loop rules over T0 (plain and arithmetic
+/// conditions), 2..4 facts of T0 of which some satisfy the rules and some do not (sometimes a T1 fact and a T1 rule), fire_all;
+/// then rounds of: reset, ONE touch — update of one fact to contents that do NOT satisfy the rules (while another fact still
+/// does), or to contents that do, a retract of one fact, or an insert of a non-matching fact — and fire_all: every rule that a
+/// live fact of the touched type satisfies must fire again (clause `quiescent_fire_all_exact_by_type`, order-independent: D0).
+fn gen_touch_one_case(rng: &mut Rng) -> String {
+    let mut prios: Vec<i64> = vec![-5, 0, 1, 7, 20];
+    rng.shuffle(&mut prios);
+    let pool = ["A.0.0.gt.i18", "A.0.0.ge.i25", "!(A.0.0.lt.i10)", "X.f0_0pf0_1.gt.n40", "X.f0_0rn4.eq.n2", "&(A.0.0.gt.i5,A.0.0.ne.i7)", "+(A.0.0.eq.i25,A.0.1.eq.b1)"];
+    let mut idx: Vec<usize> = (0..pool.len()).collect();
+    rng.shuffle(&mut idx);
+    let two_types = rng.chance(1, 4);
+    let mut rules: Vec<String> = (0..rng.range(1, 3) as usize).map(|i| format!("0:{}:1:{}:-", prios[i], pool[idx[i]])).collect();
+    if two_types { rules.push(format!("1:{}:1:A.1.0.gt.i3:-", prios[4])); }
+    let good = ["0=i25", "0=i25,1=i1", "0=i25,1=b1"];       // satisfies every rule of the pool (25 % 2 = 1, 25 + 1 > 20)
+    let bad = ["0=i3", "0=i7,1=i0", "-", "0=s0"];           // satisfies none except through f1
+    let n = rng.range(2, 4);
+    let mut ops = Vec::new();
+    let mut live: Vec<(u64, bool)> = Vec::new();            // (handle, satisfies)
+    let mut next = 1u64;
+    if two_types { ops.push("I1:0=i5".to_string()); next += 1; }
+    for i in 0..n {
+        let g = i == 0 || rng.chance(1, 2);
+        ops.push(format!("I0:{}", if g { *rng.pick(&good) } else { *rng.pick(&bad) }));
+        live.push((next, g)); next += 1;
+    }
+    ops.push("F".into());
+    for _ in 0..rng.range(1, 3) {
+        if rng.chance(5, 6) { ops.push("Z".into()); }
+        if live.is_empty() { break; }
+        let k = rng.below(live.len() as u64) as usize;
+        match rng.below(8) {
+            // the touched fact stops matching while (mostly) another one still matches
+            0 | 1 | 2 | 3 => { ops.push(format!("U{}:{}", live[k].0, *rng.pick(&bad))); live[k].1 = false; }
+            4 => { ops.push(format!("U{}:{}", live[k].0, *rng.pick(&good))); live[k].1 = true; }
+            5 | 6 => { ops.push(format!("X{}", live[k].0)); live.remove(k); }
+            _ => { ops.push(format!("I0:{}", *rng.pick(&bad))); live.push((next, false)); next += 1; }
+        }
+        if two_types && rng.chance(1, 3) { ops.push("U1:0=i9".into()); }
+        ops.push("F".into());
+    }
+    format!("{} {}", rules.join("/"), ops.join(" "))
+}
+
+/// family "arithmetic" (reach audit 2: `T.f = <expr>` right-hand sides — `evaluate_expression_for_rete`, `src/expression.rs` — and
+/// arithmetic conditions — `matches_typed` / `evaluate_arithmetic_rete` / `evaluate_arithmetic_expr`): one to three rules of one type
+/// (sometimes a second type whose field an expression reads).  Conditions: `T.f0 + T.f1 > 10`, `T.f0 % 2 == 0`, `T.f0 * 2 % 4 == 6`
+/// (precedence: F-C06e), `/ 0`, `% 0` (NaN), missing and non-numeric operands, against a literal or a field, alone (the rule's only
+/// condition: F-C06d), negated, or next to a plain comparison.  Actions: self-referencing updates `f = f + 1` / `f * 2` / `f / 2`
+/// under no-loop AND under re-firing rules (bounded by the rule's own condition, or by `max_iterations` = 1000), a second
+/// assignment that reads what the first one of the same firing wrote, a rule that reads what a higher-salience rule of the same
+/// `fire_all` wrote, results that change the type of the field (Integer -> Float through `/ 2`, `* 2.5`, `- 0.5`; Float -> Integer),
+/// division by zero / by a field that holds 0 / a missing field / a boolean, null or string operand (the expression's TEXT is
+/// stored), word concatenation, operands at the i64 bounds and just above 2^53 (saturating cast, rounding to f64).  Field 2 is the
+/// divisor field: it only ever holds 0, +-powers of two or a non-number, so every quotient is exact in binary.
+fn gen_arith_case(rng: &mut Rng) -> String {
+    let ntypes = if rng.chance(3, 4) { 1 } else { 2 };
+    let ty = rng.below(ntypes);
+    let big = rng.chance(1, 6);           // operands at the i64 bounds
+    let odd = rng.chance(1, 5);           // non-numeric operands around
+    let num = |rng: &mut Rng| -> String {
+        if big && rng.chance(1, 2) {
+            return rng.pick(&["i9223372036854775807", "i-9223372036854775808", "i9223372036854775806", "i9007199254740993",
+                "i4611686018427387904", "i-4611686018427387905", "i9007199254740992"]).to_string();
+        }
+        if odd && rng.chance(1, 3) { return rng.pick(&["n", "s0", "wab", "b1", "wc"]).to_string(); }
+        match rng.below(8) {
+            0 | 1 => format!("h{}", *rng.pick(&[1i64, 5, -7, 30, 11, 4])),
+            _ => format!("i{}", *rng.pick(&[0i64, 1, 2, 3, 5, 6, 7, 15, 18, 25, -4, 4, 12])),
+        }
+    };
+    let divisor = |rng: &mut Rng| -> String { rng.pick(&["i0", "i0", "i1", "i2", "i2", "i-4", "h1", "n", "i4"]).to_string() };
+    let data = |rng: &mut Rng| -> String {
+        let mut items = Vec::new();
+        if !rng.chance(1, 12) { items.push(format!("0={}", num(rng))); }
+        if rng.chance(3, 4) { items.push(format!("1={}", num(rng))); }
+        if rng.chance(2, 3) { items.push(format!("2={}", divisor(rng))); }
+        if rng.chance(1, 4) { items.push(format!("3={}", if rng.chance(1, 2) { rng.pick(&["wab", "wc", "wca"]).to_string() } else { num(rng) })); }
+        if items.is_empty() { "-".into() } else { items.join(",") }
+    };
+    let fld = |t: u64, f: u64| format!("f{}_{}", t, f);
+    // a literal operand (non-negative: the text of a negative literal is not an operand for either evaluator)
+    let lit = |rng: &mut Rng| -> String { format!("n{}", *rng.pick(&[2u64, 4, 4, 6, 8, 1, 5, 10, 20, 3])) };
+    let small_expr = |rng: &mut Rng, t: u64, head_field: bool| -> String {
+        let a = rng.below(2);
+        let head = if head_field || rng.chance(5, 6) { fld(t, a) } else { lit(rng) };
+        match rng.below(16) {
+            0 | 1 => format!("{}p{}", head, fld(t, 1 - a)),
+            2 => format!("{}m{}", head, fld(t, 1 - a)),
+            3 => format!("{}r{}", head, *rng.pick(&["n4", "n6", "n4", "n10"])),
+            4 => format!("{}t{}r{}", head, *rng.pick(&["n4", "n6", "n8"]), *rng.pick(&["n4", "n8", "n6", "n10"])),   // a * 2 % 4
+            5 => format!("{}d{}r{}", head, *rng.pick(&["n2", "n4"]), *rng.pick(&["n4", "n6"])),                       // a / 1 % 2
+            6 => format!("{}d{}", head, *rng.pick(&["n4", "n4", "n8", "n2"])),
+            7 => format!("{}d{}", head, *rng.pick(&["n0", fld(t, 2).as_str()])),
+            8 => format!("{}r{}", head, *rng.pick(&["n0", fld(t, 2).as_str()])),
+            9 => format!("{}p{}t{}", head, fld(t, 1 - a), lit(rng)),
+            10 => format!("{}t{}m{}", head, lit(rng), fld(t, 1 - a)),
+            11 => format!("{}p{}", head, fld(t, 4)),                                                                   // a field no fact has
+            12 => format!("{}m{}p{}", head, lit(rng), lit(rng)),
+            13 => format!("{}t{}", head, *rng.pick(&["n5", "n4", "n3", "n1"])),
+            _ => format!("{}p{}", head, lit(rng)),
+        }
+    };
+    let test_node = |rng: &mut Rng, t: u64| -> String {
+        let cmp = *rng.pick(&["gt", "ge", "lt", "le", "eq", "ne", "gt", "eq"]);
+        let rhs = match rng.below(6) { 0 => fld(t, rng.below(2)), 1 => fld(t, 4), _ => format!("n{}", *rng.pick(&[0u64, 2, 4, 12, 20, 5, 36, 8])) };
+        format!("X.{}.{}.{}", small_expr(rng, t, true), cmp, rhs)
+    };
+    let mut prios: Vec<i64> = vec![-5, 0, 1, 7, 20];
+    rng.shuffle(&mut prios);
+    let nrules = rng.range(1, 3) as usize;
+    let looping = rng.chance(1, 4);       // a rule without no-loop that rewrites the field its condition reads
+    let runaway = looping && rng.chance(1, 6);
+    let quiet = !looping && rng.chance(1, 4);
+    let mut rules = Vec::new();
+    for i in 0..nrules {
+        if i == 0 && looping {
+            // T.f0 = T.f0 + 1 while T.f0 < k (or without end: max_iterations)
+            let cond = if runaway { format!("A.{}.0.ge.i0", ty) } else if rng.chance(1, 2) { format!("A.{}.0.lt.i{}", ty, rng.range(3, 9)) }
+                else { format!("X.{}p{}.lt.n{}", fld(ty, 0), *rng.pick(&["n2", "n0", "n4"]), 2 * rng.range(4, 12)) };
+            let act = match rng.below(4) { 0 => format!("0@{}pn1", fld(ty, 0)), 1 => format!("0@{}pn2;1@{}tn4", fld(ty, 0), fld(ty, 0)), _ => format!("0@{}pn2", fld(ty, 0)) };
+            rules.push(format!("{}:{}:0:{}:{}", ty, prios[i], cond, act));
+            continue;
+        }
+        let node = match rng.below(8) {
+            0 | 1 | 2 | 3 => test_node(rng, ty),
+            4 => format!("!({})", test_node(rng, ty)),
+            5 => format!("&(A.{}.0.ne.s0,{})", ty, test_node(rng, ty)),
+            6 => format!("+({},A.{}.1.eq.b1)", test_node(rng, ty), ty),
+            _ => gen_alpha(rng, ty),
+        };
+        let target = *rng.pick(&[0u64, 1, 1, 3, 3]);
+        let action = if quiet { "-".to_string() } else {
+            match rng.below(12) {
+                0 => "-".to_string(),
+                1 => "R".to_string(),
+                2 | 3 => format!("{}@{}", rng.below(2), format!("{}{}", fld(ty, rng.below(2)), *rng.pick(&["pn2", "tn4", "dn4", "tn5", "mn1", "mn2", "tn4pn2"]))),
+                4 => format!("{}@{};{}@{}", 1, small_expr(rng, ty, false), 3, format!("{}t{}", fld(ty, 1), *rng.pick(&["n4", "n1", "n5"]))),   // reads its own write
+                5 => format!("{}={};{}@{}", 1, num(rng), 3, format!("{}p{}", fld(ty, 1), fld(ty, 0))),                                        // literal, then an expression over it
+                6 => format!("3@{}p{}", fld(ty, 3), *rng.pick(&["wab", "wc", "n2"])),                                                          // concatenation
+                7 => format!("{}@{}", target, fld(ty, rng.below(3))),                                                                         // a plain field reference
+                8 if ntypes == 2 => format!("{}@{}pn2", target, fld(1 - ty, 0)),                                                             // reads a field of the other type
+                9 => format!("{}@{};R", target, small_expr(rng, ty, false)),
+                _ => format!("{}@{}", target, small_expr(rng, ty, false)),
+            }
+        };
+        rules.push(format!("{}:{}:{}{}:{}:{}", ty, prios[i], if quiet || rng.chance(5, 6) { 1 } else { 0 }, if rng.chance(1, 10) { "v" } else { "" }, node, action));
+    }
+    let mut ops = Vec::new();
+    let mut nfacts = 0u64;
+    if ntypes == 2 { ops.push(format!("I{}:{}", 1 - ty, data(rng))); nfacts += 1; }
+    let h = nfacts + 1;
+    let first = if runaway { "0=i0".to_string() } else if looping { format!("0=i{}", rng.below(4)) } else { data(rng) };
+    ops.push(format!("I{}:{}", ty, first)); nfacts += 1;
+    if !runaway && rng.chance(1, 6) { ops.push(format!("I{}:{}", ty, data(rng))); nfacts += 1; }              // D0
+    ops.push("F".into());
+    for _ in 0..(if runaway { 0 } else { rng.below(4) }) {
+        if rng.chance(1, 2) { ops.push("Z".into()); }
+        match rng.below(6) {
+            0 => ops.push(format!("X{}", rng.range(1, nfacts))),
+            1 => {}
+            _ => ops.push(format!("U{}:{}", if rng.chance(5, 6) { h } else { rng.range(1, nfacts) }, if looping { format!("0=i{}", rng.below(3)) } else { data(rng) })),
+        }
+        ops.push("F".into());
+    }
+    format!("{} {}", rules.join("/"), ops.join(" "))
+}
+
 fn gen(rng: &mut Rng, n: usize, _tier: &str) -> Vec<String> {
     (0..n).map(|i| match i % 50 {
+        8 | 18 | 28 | 38 | 48 | 10 | 20 | 30 | 40 | 0 => gen_arith_case(rng),
+        34 | 49 | 33 => gen_touch_one_case(rng),
         1 | 11 | 21 | 31 | 41 | 6 | 26 | 46 => gen_entry_case(rng),
         4 | 24 | 44 | 14 => gen_strategy_case(rng),
         2 | 12 | 22 | 32 | 42 | 16 | 36 => gen_strop_case(rng),
